@@ -246,6 +246,27 @@ GRAPH_TRUST = [
     "canon(s) is s or rc(s) and canon(rc s) == canon(s) (axiom_canon; the real min_rc / min_rc_flip are proved to compute the lexicographic minimum by Kani family k_min_rc)",
 ]
 
+PROPS["C01"] = {
+    "title": "Compressed graph is a lossless partition of the input k-mer set",
+    "kani": lambda tier: kfam(["k_rc", "k_get", "k_extend_left", "k_extend_right", "k_min_rc"], tier, 4)
+        + exts(["x_single_dir", "x_complement", "x_from_single_dirs", "x_num_ext_dir", "x_get_unique_extension"]),
+    "verus": [("compress", r"^CompressFromHash::(extend_kmer|try_extend_kmer|get_kmer_data|get_kmer_id)$"),
+              ("buildstep", r"^CompressFromHash::(left_step|right_step)$"),
+              ("packedset", r"^PackedDnaStringSet::(get|len|new)$")],
+    "bounded": lambda tier: [("dna_string::verif::d_packed_add_b", "PackedDnaStringSet::add x2 (5 and 3 bases) then get")],
+    "design_ref": "DESIGN.md §6 C01 (as-built note in the section-6 preamble)",
+    "undecided": [
+        "the composition: build_node's loops over the walked path (reference patterns `for &(k, d) in path.iter()` are outside the Verus subset; only the loop BODIES are under contract), its terminal-extension matches, and compress_kmers' outer loop over seeds - hence 'each input k-mer occurs in exactly one node at exactly one offset' and 'no node contains a foreign k-mer' are NOT decided as whole-run statements",
+        "BaseGraph::add / PackedDnaStringSet::add (generic IntoIterator + Borrow): bounded stand-in only",
+        "the entry points compress_kmers (from a sorted slice) and compress_kmers_no_exts (observed while reading: it canonicalises neighbours with min_rc even when stranded) are not under contract",
+        "bounded cross-check of the whole pipeline is intractable: boomphf's MPHF construction keeps CBMC busy > 50 min even for 3 concrete keys"],
+    "trust": VERUS_TRUST + GRAPH_TRUST + [SEAM_NOTE,
+        "CompressionSpec::join_test / reduce are deterministic functions of their arguments (join_spec, reduce_spec)",
+        "precondition backlinks_ok (extensions reference only present k-mers, symmetrically)"],
+    "level_text": "Partial claim - the MECHANISM of the statement, step by step, on the real code (Verus, unbounded): (1) a walk only ever steps along a link that is the sole extension on both facing sides between two distinct non-palindromic table k-mers accepted by the join predicate ('every step between consecutive k-mers of a node follows an extension recorded for both of them': try_extend_kmer iff + extend_kmer's step_ok for every path element); (2) exactly the seed and the walked k-mers leave the available set, each was available when taken - so no k-mer is placed on two paths of the same or of different walks (extend_kmer's frame); (3) each path step adds exactly one base to the node sequence - the first (left walk) resp. last (right walk) base of that step's k-mer as spelled on the seed's strand - and folds exactly that k-mer's payload with the caller's reduction (bodies of build_node's two path loops); (4) stored sequences are returned unchanged by index (PackedDnaStringSet::get).",
+    "level_note": "PARTIAL: the composition of these steps into the whole-run partition statement is not decided (see undecided_clauses). Trusted: Verus/Z3, extractor rules (R15 loop-body extraction), abstract BoomHashMap2/BitSet contracts, the V<->K seam.",
+}
+
 PROPS["C02"] = {
     "title": "Nodes are exactly the maximal unbranched paths",
     "kani": lambda tier: kfam(["k_min_rc", "k_extend_left", "k_extend_right"], tier)
@@ -358,7 +379,6 @@ HOOK_COMMITS = ["b99dd0a", "cace3e3"]
 FIX_COMMITS = ["fbab396", "2f3f16f", "a14fcdf"]
 
 NOT_APPLICABLE = {
-    "C01": "whole-construction inductive invariant over generic code threading three third-party containers; no single-call contract expresses it and the bounded route is intractable for Kani (see DESIGN.md §6 C01)",
     "C04": "relational equivalence between two pipelines; follows only from global theorems (C01/C02/C09 + C05 kernel) that no contract here decides (DESIGN.md §6 C04)",
     "C19": "quantifies over thread schedules of boomphf's rayon builder: Kani has no threads, Verus would have to verify the third-party MPHF (DESIGN.md §6 C19)",
     "C20": "serde derive output and write!/format! byte streams judged by a parser: string/byte-grammar reasoning neither verifier supports (DESIGN.md §6 C20)",
